@@ -70,7 +70,9 @@ class ConfigAwareBuiltins(dict):
     def __missing__(self, name):
         if name in self.ecfg._cfgobj:
             with self.ctx.require_all_safe(self.node, self.path):
-                return self.ecfg[name]
+                # always go through the context (rather than reading a possibly partially evaluated entry from "ecfg")
+                # so that the safety requirement is also checked for entries which have already been evaluated
+                return self.ctx.evaluate_node(self.ecfg._cfgobj[name], [name])
         try:
             return getattr(self._builtins, name)
         except AttributeError:
